@@ -168,7 +168,7 @@ class Run:
     # ------------------------------------------------------------------ finish
     def finish(self) -> int:
         wall = time.time() - self.t0
-        rdir = VERIF / "replays" / self.pid
+        rdir = Path(os.environ.get("VERIF_REPLAY_DIR", VERIF / "replays")) / self.pid
         if rdir.is_dir() and not self.replay_only:
             for old in rdir.glob("*.json"):      # replays describe the last run only
                 old.unlink()
@@ -213,8 +213,8 @@ class Run:
             "violations": len(self._viol),
         }
         if not self.replay_only:
-            edir = VERIF / "evidence"
-            edir.mkdir(exist_ok=True)
+            edir = Path(os.environ.get("VERIF_EVIDENCE_DIR", VERIF / "evidence"))   # scratch runs against mutants write elsewhere
+            edir.mkdir(parents=True, exist_ok=True)
             (edir / f"{self.pid}.json").write_text(json.dumps(ev, indent=1, default=_jdefault) + "\n")
         for ln in lines:
             print(ln)
